@@ -261,13 +261,104 @@ func c04CellsPerRow(p *Program, r *Report) {
 		return
 	}
 	n := 0
-	isColumns := func(info *types.Info, e ast.Expr) bool { return fieldOf(info, e) == colsF }
-	// perColumn: e is len(<meta>.columns)
-	perColumn := func(info *types.Info, e ast.Expr) bool {
-		if c, ok := ast.Unparen(e).(*ast.CallExpr); ok && exprStr(c.Fun) == "len" && len(c.Args) == 1 {
-			return isColumns(info, c.Args[0])
+	// isColumns: e is <meta>.columns, or a local bound once to it
+	isColumns := func(info *types.Info, fn *FuncInfo, e ast.Expr) bool {
+		if fieldOf(info, e) == colsF {
+			return true
+		}
+		if id, ok := ast.Unparen(e).(*ast.Ident); ok && fn != nil {
+			if d := localDef(info, fn, id); d != nil && fieldOf(info, d) == colsF {
+				return true
+			}
 		}
 		return false
+	}
+	// perColumn: e is len(<meta>.columns), or a local bound once to it
+	perColumn := func(info *types.Info, fn *FuncInfo, e ast.Expr) bool {
+		if id, ok := ast.Unparen(e).(*ast.Ident); ok && fn != nil {
+			if d := localDef(info, fn, id); d != nil {
+				e = d
+			}
+		}
+		if c, ok := ast.Unparen(e).(*ast.CallExpr); ok && exprStr(c.Fun) == "len" && len(c.Args) == 1 {
+			return isColumns(info, fn, c.Args[0])
+		}
+		return false
+	}
+	// bufPerColumn: the buffer e (in function fn) has one element per column: a field every make of which has
+	// len(columns) elements, or a parameter every caller fills with such a buffer
+	var bufPerColumn func(info *types.Info, fn *FuncInfo, e ast.Expr, depth int) (bool, string)
+	bufPerColumn = func(info *types.Info, fn *FuncInfo, e ast.Expr, depth int) (bool, string) {
+		how := ""
+		if bf := fieldOf(info, e); bf != nil {
+			makes, good := 0, 0
+			for _, u := range p.SortedFuncs() {
+				if u.Decl.Body == nil || u.Pkg != p.Root {
+					continue
+				}
+				ui := u.Pkg.TypesInfo
+				chk := func(v ast.Expr) {
+					if mk, ok := ast.Unparen(v).(*ast.CallExpr); ok && exprStr(mk.Fun) == "make" && len(mk.Args) >= 2 {
+						makes++
+						if perColumn(ui, u, mk.Args[1]) {
+							good++
+						} else {
+							how = "made with " + exprStr(mk.Args[1]) + " elements in " + u.Name
+						}
+					}
+				}
+				ast.Inspect(u.Decl.Body, func(x ast.Node) bool {
+					switch v := x.(type) {
+					case *ast.KeyValueExpr:
+						if id, ok := v.Key.(*ast.Ident); ok && ui.Uses[id] == bf {
+							chk(v.Value)
+						}
+					case *ast.AssignStmt:
+						for i, lh := range v.Lhs {
+							if fieldOf(ui, lh) == bf && i < len(v.Rhs) {
+								chk(v.Rhs[i])
+							}
+						}
+					}
+					return true
+				})
+			}
+			if makes > 0 && good == makes {
+				return true, "counts to the length of " + exprStr(e) + ", made with len(columns) elements"
+			}
+			return false, how
+		}
+		if id, ok := ast.Unparen(e).(*ast.Ident); ok && depth < 2 {
+			for k := 0; ; k++ {
+				po := paramObj(info, fn.Decl.Type, k)
+				if po == nil {
+					break
+				}
+				if po != info.Uses[id] {
+					continue
+				}
+				sites, good := 0, 0
+				for _, u := range p.SortedFuncs() {
+					if u.Decl.Body == nil {
+						continue
+					}
+					for _, cc := range callsIn(u.Decl.Body) {
+						if calleeOf(u.Pkg.TypesInfo, cc) != fn.Obj || k >= len(cc.Args) {
+							continue
+						}
+						sites++
+						if ok, h := bufPerColumn(u.Pkg.TypesInfo, u, cc.Args[k], depth+1); ok {
+							good++
+							how = h
+						} else {
+							how = "caller " + u.Name + " passes " + exprStr(cc.Args[k]) + " (" + h + ")"
+						}
+					}
+				}
+				return sites > 0 && good == sites, how
+			}
+		}
+		return false, how
 	}
 	for _, fi := range p.SortedFuncs() {
 		if fi.Decl.Body == nil || fi.Pkg != p.Root {
@@ -301,14 +392,14 @@ func c04CellsPerRow(p *Program, r *Report) {
 			var bufE ast.Expr
 			switch l := loop.(type) {
 			case *ast.RangeStmt:
-				if isColumns(info, l.X) {
+				if isColumns(info, fi, l.X) {
 					okBound, how = true, "range over the metadata's columns"
 				} else {
 					bufE = l.X
 				}
 			case *ast.ForStmt:
 				if be, ok := l.Cond.(*ast.BinaryExpr); ok && (be.Op == token.LSS || be.Op == token.NEQ) {
-					if perColumn(info, be.Y) {
+					if perColumn(info, fi, be.Y) {
 						okBound, how = true, "counts to len(columns)"
 					} else if cl, ok := ast.Unparen(be.Y).(*ast.CallExpr); ok && exprStr(cl.Fun) == "len" && len(cl.Args) == 1 {
 						bufE = cl.Args[0]
@@ -316,44 +407,7 @@ func c04CellsPerRow(p *Program, r *Report) {
 				}
 			}
 			if !okBound && bufE != nil {
-				// a buffer field: every place that makes it gives it one element per column
-				if bf := fieldOf(info, bufE); bf != nil {
-					makes, good := 0, 0
-					for _, u := range p.SortedFuncs() {
-						if u.Decl.Body == nil || u.Pkg != p.Root {
-							continue
-						}
-						ui := u.Pkg.TypesInfo
-						chk := func(v ast.Expr) {
-							if mk, ok := ast.Unparen(v).(*ast.CallExpr); ok && exprStr(mk.Fun) == "make" && len(mk.Args) >= 2 {
-								makes++
-								if perColumn(ui, mk.Args[1]) {
-									good++
-								} else {
-									how = "made with " + exprStr(mk.Args[1]) + " elements in " + u.Name
-								}
-							}
-						}
-						ast.Inspect(u.Decl.Body, func(x ast.Node) bool {
-							switch v := x.(type) {
-							case *ast.KeyValueExpr:
-								if id, ok := v.Key.(*ast.Ident); ok && ui.Uses[id] == bf {
-									chk(v.Value)
-								}
-							case *ast.AssignStmt:
-								for i, lh := range v.Lhs {
-									if fieldOf(ui, lh) == bf && i < len(v.Rhs) {
-										chk(v.Rhs[i])
-									}
-								}
-							}
-							return true
-						})
-					}
-					if makes > 0 && good == makes {
-						okBound, how = true, "counts to the length of "+exprStr(bufE)+", made with len(columns) elements"
-					}
-				}
+				okBound, how = bufPerColumn(info, fi, bufE, 0)
 			}
 			r.Check(okBound, loop, fi.Name+" reads one cell per column of the row", how,
 				"the loop that takes the cells of a row is not bounded by the number of columns ("+how+"): with a tuple column the number of scan destinations differs from the number of cells, the row is read too far and every later row is shifted")
@@ -811,7 +865,9 @@ func c11NestedCursor(p *Program, r *Report) {
 		}
 	}
 	if n == 0 {
-		r.Unresolved("no generator walks a list of lists with persistent cursors")
+		// the rule is about one construct; a generator that keeps no (list, position) cursor pair cannot strand on the
+		// end of a list this way
+		r.OK(p.Root.Syntax[0], "no host generator walks a list of lists with a persistent (list, position) cursor pair", "nothing to decide")
 	}
 }
 
